@@ -1,8 +1,20 @@
 import MiVerif.Model.Options
 import MiVerif.Model.Printf
+import MiVerif.Gen.Loops
 /- correspondence driver for C20: recomputes every line of harness/c20.c with the Lean models and reports differences -/
 namespace C20Val
 open PfM
+
+/-- memory of the string harness for the regenerated functions: the destination buffer at 4096, the NUL-terminated source at 8192 -/
+def genLd (dest : List Char) (src : List Char) (a : Nat) : Nat :=
+  if 4096 ≤ a ∧ a < 4096 + dest.length then (dest.getD (a - 4096) '\x00').toNat
+  else if 8192 ≤ a ∧ a < 8192 + src.length then (src.getD (a - 8192) '\x00').toNat else 0
+/-- the byte stores of an effect log applied to the destination buffer (a store outside the buffer is dropped: it shows as a difference
+    only if the real function wrote there too, which AddressSanitizer would have reported) -/
+def genStores (dest : List Char) (eff : List (String × List Nat)) : List Char :=
+  eff.foldl (fun d c => match c with
+    | ("store8", [a, v]) => if 4096 ≤ a ∧ a < 4096 + d.length then d.set (a - 4096) (Char.ofNat v) else d
+    | _ => d) dest
 
 def hexVal (c : Char) : Nat :=
   if '0' ≤ c ∧ c ≤ '9' then c.toNat - 48 else if 'a' ≤ c ∧ c ≤ 'f' then c.toNat - 87 else 0
@@ -45,12 +57,17 @@ def checkLine (ws : List String) : Option String :=
   | ["S", "cpy", _, src, n, "->", dest] =>
     let nn := n.toNat!
     let res := applyStores (List.replicate nn '#') (strlcpy (unhex src) nn)
-    if toHex res == dest then none else some s!"model: {toHex res}"
+    -- the function regenerated from src/libc.c (Gen/Loops.lean) on the same memory: destination at 4096, source at 8192
+    let gres := genStores (List.replicate nn '#') (GenL._mi_strlcpy (genLd (List.replicate nn '#') (unhex src)) 4096 8192 nn)
+    if toHex res != dest then some s!"model: {toHex res}"
+    else if toHex gres != dest then some s!"generated _mi_strlcpy: {toHex gres}" else none
   | ["S", "cat", dl, src, n, "->", dest] =>
     let nn := n.toNat!; let d := dl.toNat!
     let init := (List.range nn).map fun i => if i < d then 'd' else if i == d then '\x00' else '#'
     let res := applyStores init (strlcat d (unhex src) nn)
-    if toHex res == dest then none else some s!"model: {toHex res}"
+    let gres := genStores init (GenL._mi_strlcat (genLd init (unhex src)) 4096 8192 nn)
+    if toHex res != dest then some s!"model: {toHex res}"
+    else if toHex gres != dest then some s!"generated _mi_strlcat: {toHex gres}" else none
   | ["H", size, used, msg, "->", used', buf] =>
     let sz := size.toNat!
     let (st, u) := heapBufPrint sz used.toNat! (unhex msg)
